@@ -12,6 +12,10 @@ claimed = {
              text='Proved for every partition of the transport byte stream into Read results: PacketHeader.ReadFrom consumes exactly 8 bytes, decodes them as the big-endian header and fails only if the transport failed; Packet.ReadFrom consumes exactly Header.Length bytes and its body equals the following Length-8 stream bytes in order; WritePacket/tryParsePackage keep the receive queue position valid across failed parse attempts. Together with the queue view (C15) and the parser clause (C07) this makes each delivered package a function of the byte stream only. Proof level for these per-function statements.',
              note='The relational end-to-end statement (two packetisations of one response deliver the same package sequence) is not itself mechanised, and the reader goroutine Conn.ReadFrom is outside the generator (maps of pointers, goroutines). A genuine defect (packet header split over two reads reported as an error) was repaired, see known_findings.txt.',
              ref='3 C02'),
+ 'C11': dict(tech='contract-based deductive verification: ghost invocation counters on the hook dispatchers, filter postconditions and send-site obligations, VCs from go/ssa, z3/cvc5',
+             text='Proved for any number of registered hooks: each dispatcher call invokes every registered hook exactly once; a non-informational server message reaches every message hook exactly once and is then passed on, an informational message reaches no hook and is never passed on, environment changes are consumed and never delivered as packages, and a packet size is applied only if it fits the packet header. Proof level for these per-function statements.',
+             note='Not mechanised: the error aggregation in NextPackageUntil (all messages so far, in order, still matching the callback error), the nonlinear per-member hook count, registration concurrent with a response.',
+             ref='3 C11'),
  'C14': dict(tech='contract-based deductive verification: error-path postconditions of the packet reader over a ghost transport stream with a failure flag, VCs from go/ssa, z3/cvc5',
              text='Proved for every failure offset and every Read partition: Packet.ReadFrom returns nil, or an error matching io.EOF, only together with a complete packet whose body equals the stream bytes; any other return is an error that occurs only if the transport failed or the context is done; a partial header is never reported as io.EOF. Hence the dispatcher, which forwards a packet only on nil or io.EOF, never forwards incomplete data; incomplete package data inside complete packets is reported as ErrNotEnoughBytes (C07). Proof level for these per-function statements.',
              note='Time bounds (read timeout) and the absence of a spurious final DONE after a failure are whole-history statements over the reader goroutine and are not mechanised; Conn.ReadFrom itself is outside the generator (maps of pointers, goroutines).',
